@@ -9,32 +9,42 @@ TRUST = ("Trusted base: rustc nightly MIR construction and Instance::try_resolve
          "workspace (radicle-cli-test excluded because it switches on test features); the hwx extractor; the hw rule engine "
          "and its reference tables (transcriptions of the property statement). Calls into dependencies are leaves.")
 
-# id -> (technique, claim text, design ref)
-CLAIMED = {
-    "C12": ("MIR who-may-call + dominance + dataflow provenance + boolean decision tables",
-            "Structural decision of the whole mechanism: upload_pack is reachable only behind is_authorized()=Ok for the same "
-            "requester and the repo id parsed from the request; is_authorized is Ok only if not blocked and visible; "
-            "is_visible_to/is_block tables. Decided for every path of the analysed functions, not the behaviour of git itself.",
-            "DESIGN §4 C12"),
-    "C19": ("typestate (private fields) + who-may-construct over all MIR aggregates/ctor uses + dominance of range checks",
-            "Validity clause decided structurally for every construction site in the workspace (derive-generated bodies and "
-            "constants included); repo id provenance from the canonical encoding. Round trip decode(encode(d)) not decided.",
-            "DESIGN §4 C19"),
-    "C20": ("typestate + who-may-construct + dominance/exclusion on MIR + argument provenance of the signature check",
-            "Partial: decides that SignedRefs<Verified> only arises behind verify()=Ok and that verify()'s Ok exits are dominated "
-            "by the signature check over self.refs.canonical() with self.id/self.signature and by the identity-root binding. "
-            "Text round trip and cryptographic tamper detection are not decided.",
-            "DESIGN §4 C20"),
-    "C28": ("MIR exclusion/dominance of deletion sites by guards + provenance + who-may-call",
-            "Structural decision of the mechanism: deletions in Repository::clean excluded for local/delegate namespaces on every "
-            "path; whole-repo removal only when local sigrefs are absent; who may remove.",
-            "DESIGN §4 C28"),
-    "C29": ("who-may-write + provenance of announcement timestamps + freshness pairing + order-domain dataflow",
-            "Partial (strong): last_timestamp written only by new/timestamp; every announcement timestamp built in service.rs "
-            "derives from a fresh Service::timestamp() draw; timestamp() returns > previous on all paths (abstract "
-            "interpretation in an order domain). Interleaving behaviour as a whole is not decided.",
-            "DESIGN §4 C29"),
+# id -> technique; the claim text is the docstring of hw/props/<id>.py (one place, always in sync)
+TECH = {
+    "C01": "MIR who-may-write + failure/prune pairing on loop iterations + dominance of validated-insert by validate + sibling agreement + typestate",
+    "C02": "MIR dominance/exclusion of the ref update by the threshold compare + decision tables of policy/ancestry arms + who-may-construct",
+    "C04": "MIR dominance / must-pass-through of signature verification + who-may-write + decision tables + transactional effect analysis",
+    "C05": "call-graph reachability + nondeterminism-source lint (hash iteration, clocks, env, rand) + container type facts + required comparator",
+    "C06": "transactional effect analysis (interprocedural write/err dataflow summaries over MIR) for every Evaluate::apply",
+    "C07": "decision-table extraction by abstract interpretation of MIR with uninterpreted predicates vs. reference table + dominance + HIR match exhaustiveness",
+    "C08": "type facts + MIR dominance/exclusion of merge recording and Merged transition + decision table of lifecycle guard + who-may-construct",
+    "C09": "write-through pairing on MIR paths + sibling callee-set agreement + SQL shape lints over string constants reaching prepare()",
+    "C10": "MIR dominance/exclusion of store/relay by verification, freshness and known-announcer guards + argument provenance of verify + SQL lint + relay filter closure containment",
+    "C11": "send-site enumeration + message provenance classification + visibility-filter dominance/closure containment",
+    "C12": "MIR who-may-call + dominance + dataflow provenance + boolean decision tables",
+    "C13": "call-graph reachability from network entries + panic-source enumeration against a reviewed table + dominance verification of guarded sources",
+    "C14": "integer taint dataflow from wire reads to allocation sizes + error-flow rule for inner readers + decision table of deserialize_next",
+    "C15": "sibling agreement of Encode/Decode field and wire-type sequences + tag-table bijection + interval arithmetic of maximum encoded sizes over compile-time constants",
+    "C16": "MIR who-may-call/write + dominance/exclusion of Io::Fetch by vacancy/connected/capacity guards + pairing + attribution branch dominance",
+    "C17": "MIR exclusion of token take by bypass guards + decision tables of take/refill + who-may-write",
+    "C18": "trait-impl exhaustiveness against serde_json's Formatter item list + type facts + required-call and delegation lints",
+    "C19": "typestate (private fields) + who-may-construct over all MIR aggregates/ctor uses + dominance of range checks",
+    "C20": "typestate + who-may-construct + dominance/exclusion on MIR + argument provenance of the signature check",
+    "C21": "call-graph reachability from parser entry points + panic-source enumeration against a reviewed table + constant agreement",
+    "C24": "SQL shape lints over string constants reaching prepare() + bind-argument provenance on MIR",
+    "C26": "panic-source enumeration against a reviewed table + char-boundary class dataflow for str range bounds",
+    "C27": "panic-source enumeration against a reviewed table + dominance verification of emptiness/length guards + sibling contradiction check",
+    "C28": "MIR exclusion/dominance of deletion sites by guards + provenance + who-may-call",
+    "C29": "who-may-write + provenance of announcement timestamps + freshness pairing + order-domain dataflow",
 }
+
+
+def claim_text(pid):
+    import ast
+    src = open(os.path.join(VERIF, "hw", "props", pid.lower() + ".py")).read()
+    doc = ast.get_docstring(ast.parse(src)) or ""
+    return " ".join(doc.split())
+
 
 NOT_APPLICABLE = {
     "C03": "vote arithmetic over arbitrary commit DAGs (merge-base results at run time); no structural rule bounds it and a frozen-shape check would be a text match",
@@ -53,8 +63,8 @@ def main():
     na = []
     for p in props:
         pid = p["id"]
-        if pid in CLAIMED and os.path.exists(os.path.join(VERIF, "hw", "props", pid.lower() + ".py")):
-            tech, text, ref = CLAIMED[pid]
+        if pid in TECH and os.path.exists(os.path.join(VERIF, "hw", "props", pid.lower() + ".py")):
+            tech, text, ref = TECH[pid], claim_text(pid), "DESIGN §4 " + pid
             checks.append({
                 "property_id": pid,
                 "quick_cmd": "./check %s --tier quick" % pid,
